@@ -38,7 +38,7 @@ class Task:
     """One verification task = one function (or lemma) under contract in one configuration."""
 
     def __init__(self, name, harness, cfg_factory=None, functions=(), timeout_ms=10000, prune=True,
-                 max_paths=50000, native=None, expect_refuted=False, thorough_only=False):
+                 max_paths=50000, native=None, expect_refuted=False, thorough_only=False, cvc5_first=False):
         self.name = name
         self.harness = harness
         self.cfg_factory = cfg_factory
@@ -49,6 +49,7 @@ class Task:
         self.native = native  # family name for path-witness replay (or None)
         self.expect_refuted = expect_refuted  # must-fail guard task
         self.thorough_only = thorough_only
+        self.cvc5_first = cvc5_first  # string-heavy obligations: ask cvc5 before z3
 
 
 class Bounded:
@@ -163,6 +164,7 @@ def _worker(args):
             _KNOWN = load_known(pid)
         task = next(t for t in _MOD.PROPERTY.tasks if t.name == tname)
         from pyvc.interp import Config
+        core.CVC5_FIRST = bool(getattr(task, "cvc5_first", False))
         res = run_task(task.name, task.harness, task.cfg_factory or Config, repo=Repo(REPO),
                        timeout_ms=task.timeout_ms, max_paths=task.max_paths, prune=task.prune,
                        known_classes=known_classes_for(_KNOWN, task.name))
@@ -396,11 +398,15 @@ def run_check(mod, prop, tier, seed, a, t0):
         print(f"CHECKER-ERROR property={pid} task={e['task']}\n{e['error']}")
     for mname in mustfail_missing:
         print(f"CHECKER-ERROR property={pid} must-fail guard {mname} was not refuted (vacuity)")
+    # a refuted callee contract makes the witnesses of its callers (which assume it) disagree with CPython: with a
+    # violation on the table that is a consequence, not a checker fault, and must not mask the violation's exit code
+    dis_is_error = bool(xchk["disagreements"]) and violations == 0
     for d in xchk["disagreements"][:10]:
-        print(f"CHECKER-ERROR property={pid} engine/CPython disagreement task={d['task']} path={d['path']}: "
+        tag = "CHECKER-ERROR" if dis_is_error else "NOTE"
+        print(f"{tag} property={pid} engine/CPython disagreement task={d['task']} path={d['path']}: "
               f"{json.dumps(d['cpython'].get('mismatch', d['cpython']), default=str)[:300]}")
 
-    internal = bool(errors or mustfail_missing or xchk["disagreements"])
+    internal = bool(errors or mustfail_missing or dis_is_error)
     if n_vc == 0:
         print(f"CHECKER-ERROR property={pid} zero obligations generated")
         internal = True
